@@ -774,6 +774,7 @@ def with_api(inner, fn_name, quick, thorough):
 REGISTRY["C08"]["run"] = with_api(REGISTRY["C08"]["run"], "run_readonly_queries", 60, 2000)
 REGISTRY["C07"]["run"] = with_api(REGISTRY["C07"]["run"], "run_add_labor_cost_flags", 60, 2000)
 REGISTRY["C18"]["run"] = with_api(REGISTRY["C18"]["run"], "run_class_level_edits", 80, 3000)
+REGISTRY["C08"]["run"] = with_api(REGISTRY["C08"]["run"], "run_class_level_edits", 80, 3000)
 REGISTRY["C07"]["run"] = with_api(REGISTRY["C07"]["run"], "run_cost_sums_after_class_inserts", 80, 3000)
 REGISTRY["C13"]["run"] = with_api(REGISTRY["C13"]["run"], "run_placement_logs_after_insert", 80, 3000)
 REGISTRY["C16"]["run"] = with_api(REGISTRY["C16"]["run"], "run_nonfinite_json", 40, 1000)
